@@ -377,6 +377,13 @@ CORPUS2_FILES = [
 CORPUS2_MONO = ('package P\n  package Q\n    model S\n      Real z;\n    equation\n      z = 2.0 * R.k;\n    end S;\n  end Q;\n'
                 '  model M\n    Q.S s;\n    Real y;\n  equation\n    y = s.z + R.k;\n  end M;\nend P;\n'
                 'package R\n  constant Real k = 4.0;\nend R;\n')
+# an encapsulated package whose class lives in a `within` file (flags must be or-ed, never reset)
+CORPUS3_FILES = [
+    'package P\n  constant Real k = 2.0;\n  encapsulated package E\n    constant Real c = 1.0;\n  end E;\nend P;\n',
+    'within P.E;\nmodel X\n  Real y;\nequation\n  y = P.k + E.c;\nend X;\n',
+]
+CORPUS3_MONO = ('package P\n  constant Real k = 2.0;\n  encapsulated package E\n    constant Real c = 1.0;\n'
+                '    model X\n      Real y;\n    equation\n      y = P.k + E.c;\n    end X;\n  end E;\nend P;\n')
 
 
 def all_perms(n):
@@ -391,6 +398,8 @@ def corpus_cases():
                     "compat": True})
         out.append({"kind": "corpus", "files": CORPUS2_FILES, "orders": all_perms(3), "models": ["P.M", "P.Q.S"],
                     "mono": CORPUS2_MONO, "walk": ["a/S.mo", "M.mo", "z/R.mo"], "style": style, "compat": True})
+        out.append({"kind": "corpus", "files": CORPUS3_FILES, "orders": all_perms(2), "models": ["P.E.X"],
+                    "mono": CORPUS3_MONO, "walk": ["P/package.mo", "P/E/X.mo"], "style": style, "compat": True})
     return out
 
 
